@@ -200,6 +200,15 @@ def bin_path(b, release=False):
 
 # --------------------------------------------------------------------------------------------- suites
 
+def _finish_case(cur, hashes, ntre, counters):
+    """distinctness is by the whole case (all its record lines); non-triviality by the suite's rule on its first line"""
+    h = hashlib.blake2b('\n'.join(cur).encode(), digest_size=8).digest()
+    if h not in hashes:
+        hashes.add(h)
+        if ntre is None or ntre.search(cur[0]):
+            counters[0] += 1
+
+
 def _compare_shard(args):
     """Compare one shard: the k-th `I` line of the case file with the k-th `M` line of the driver output;
     collect monitor verdicts. Returns a summary dict (picklable)."""
@@ -208,6 +217,7 @@ def _compare_shard(args):
     impl, ctx_of, case_of = [], [], []
     cur, cur_start = [], 0
     hashes, nontrivial, records = set(), 0, 0
+    counters = [0]
     samples, notes = [], []
     with open(cases_path, errors='replace') as f:
         for line in f:
@@ -223,17 +233,18 @@ def _compare_shard(args):
                 notes.append(line[2:])
             else:
                 if t in 'CH':   # a new case starts
+                    if cur:
+                        _finish_case(cur, hashes, ntre, counters)
                     cur_start += len(cur)
                     cur = []
                     records += 1
-                    h = hashlib.blake2b(line.encode(), digest_size=8).digest()
-                    if h not in hashes:
-                        hashes.add(h)
-                        if ntre is None or ntre.search(line):
-                            nontrivial += 1
                     if len(samples) < 3:
                         samples.append(line[:400])
-                cur.append(line)
+                if t != 'J':
+                    cur.append(line)
+    if cur:
+        _finish_case(cur, hashes, ntre, counters)
+    nontrivial = counters[0]
     # second pass to recover context lines lazily (only for failures)
     model = {}
     mon_fail, mon_count = [], {}
